@@ -18,7 +18,7 @@
    Hash functions: a hash is any function of the digest input (event_hash H, event_hex H with the
    private cache); "same digest input" is what is proved, so the conclusions hold for SHA256. *)
 From Coq Require Import ZArith List Bool String Permutation.
-From V Require Import Model.Wire Model.WireWitness Proofs.WireSort Proofs.WireJson Proofs.WireProofs Proofs.WireWitnessProofs.
+From V Require Import Model.Wire Model.WireWitness Proofs.WireSort Proofs.WireJson Proofs.WireProofs Proofs.WireFrameProofs Proofs.WireWitnessProofs.
 Import ListNotations.
 Open Scope Z_scope.
 
@@ -95,7 +95,7 @@ Proof. exact frame_json_roundtrip. Qed.
 Print Assumptions C15_json_roundtrip_frame.
 
 (* the events of a transported frame: same serialized part, NO private field (in particular the
-   wire fields are zero: see C15_frame_event_rewire_refuted) *)
+   wire fields are zero; InsertFrameEvent recomputes them: C15_frame_event_rewire) *)
 Theorem C15_json_roundtrip_frame_events : forall f l,
   frame_valid f = true -> f_events f = Some l ->
   f_events (n_frame false f) =
@@ -154,24 +154,139 @@ Theorem C15_wire_foreign_signature_changes_hash :
 Proof. exact wire_foreign_signature_changes_hash. Qed.
 Print Assumptions C15_wire_foreign_signature_changes_hash.
 
-(* FINDING (FINDINGS.md F2): an event received inside a frame through JSON has lost its wire
-   fields (C15_json_roundtrip_frame_events) and InsertFrameEvent does not recompute them: its wire
-   form cannot be read back, although the same event converts fine on the node that created it. *)
-Definition C15_frame_event_rewire_statement : Prop :=
-  forall st f f' e e' l, store_ok st -> frame_valid f = true -> json_rt_frame f = Some f' ->
-    f_events f = Some [Some {| fe_core := Some e; fe_round := 0; fe_lamport := 0; fe_witness := false |}] ->
-    f_events f' = Some [Some {| fe_core := Some e'; fe_round := 0; fe_lamport := 0; fe_witness := false |}] ->
-    read_wire st (to_wire e) = inr l -> exists l', read_wire st (to_wire e') = inr l' /\ same_public l' l.
+(* ================================================================================================
+   Events received in a frame (FINDINGS.md F2, fixed in /repo by 5bf08c3).
+     insert_frame_event(s)       Hashgraph.InsertFrameEvent / Reset as of 5bf08c3: topological index
+                                 from the counter, creatorID from the repertoire, selfParentIndex =
+                                 Index - 1, other-parent looked up in the store
+     frame_other_parent_named    the other-parent is "" or in the receiving node's store
+     rep_agree ds rs             peer ids are a function of the key (the two repertoires agree)
+     truthful ds rs              what D recorded about an event (creator, index) is what the reader has
+     reader_knows rs x           the reader has the event's parents (self-parent by the same creator at
+                                 index - 1: admission invariant), the event itself, own block signatures *)
 
-Theorem C15_frame_event_rewire_refuted :
-  exists st f f' e e' l,
-    store_ok_b st = true /\ frame_valid f = true /\ json_rt_frame f = Some f' /\
-    f_events f = Some [Some {| fe_core := Some e; fe_round := 0; fe_lamport := 0; fe_witness := false |}] /\
-    f_events f' = Some [Some {| fe_core := Some e'; fe_round := 0; fe_lamport := 0; fe_witness := false |}] /\
-    read_wire st (to_wire e) = inr l /\ same_event_hash l e = true /\
-    read_wire st (to_wire e') = inl ECreator.
-Proof. exact frame_event_rewire_refuted. Qed.
-Print Assumptions C15_frame_event_rewire_refuted.
+(* one event: after a JSON hop (no private field) and InsertFrameEvent on a node D, the wire form
+   that D builds is read back by a reader that knows the parents: same serialized part, hence same
+   hash and signature - provided D can name the other-parent *)
+Theorem C15_frame_event_rewire : forall ds rs cid e sp op k e1,
+  store_ok rs -> rep_agree ds rs -> truthful ds rs ->
+  b_parents (e_body e) = Some [sp; op] ->
+  b_creator (e_body e) = Some k ->
+  id_of_key k (ws_rep ds) = Some cid ->
+  (sp <> [] -> ev_find sp (ws_ev rs) = Some (k, b_index (e_body e) - 1)) ->
+  (forall l b, b_bsigs (e_body e) = Some l -> In b l -> bs_validator b = Some k) ->
+  frame_other_parent_named ds op = true ->
+  e_body e1 = frame_event_wire_info ds cid e -> e_sig e1 = e_sig e ->
+  exists e2, read_wire rs (to_wire e1) = inr e2 /\ same_public e2 e /\ same_wire_info e2 e1.
+Proof. exact frame_event_rewire. Qed.
+Print Assumptions C15_frame_event_rewire.
+
+(* the explicit, counted exception: an other-parent below the frame is left out of the wire form;
+   the reader builds the event without it (harness: other-parent-outside-frame) *)
+Theorem C15_frame_event_rewire_residual : forall ds rs cid e sp op k e1,
+  store_ok rs -> rep_agree ds rs ->
+  b_parents (e_body e) = Some [sp; op] ->
+  b_creator (e_body e) = Some k ->
+  id_of_key k (ws_rep ds) = Some cid ->
+  (sp <> [] -> ev_find sp (ws_ev rs) = Some (k, b_index (e_body e) - 1)) ->
+  frame_other_parent_named ds op = false ->
+  e_body e1 = frame_event_wire_info ds cid e ->
+  op <> [] /\ exists e2, read_wire rs (to_wire e1) = inr e2 /\ b_parents (e_body e2) = Some [sp; []].
+Proof. exact frame_event_rewire_residual. Qed.
+Print Assumptions C15_frame_event_rewire_residual.
+
+(* the whole frame in insertion order: every event whose other-parent could be named converts back *)
+Theorem C15_frame_rewire_all : forall rs l ds n ds' n' out,
+  store_ok rs -> rep_agree ds rs -> truthful ds rs ->
+  Forall (reader_knows rs) l ->
+  insert_frame_events ds n l = Some (ds', n', out) ->
+  Forall2 (fun x r => snd r = true ->
+                      exists e2, read_wire rs (to_wire (fst r)) = inr e2 /\
+                                 same_public e2 (snd (snd x)) /\ same_wire_info e2 (fst r)) l out.
+Proof. exact frame_rewire_all. Qed.
+Print Assumptions C15_frame_rewire_all.
+
+(* topological indexes follow the insertion order (consensus order: Lamport timestamps, so a parent
+   is inserted before its child - C04): serving by topological index is parent-before-child *)
+Theorem C15_frame_events_topological : forall l st n st' n' out i j a b,
+  insert_frame_events st n l = Some (st', n', out) ->
+  nth_error out i = Some a -> nth_error out j = Some b -> (i < j)%nat ->
+  e_topo (fst a) < e_topo (fst b).
+Proof. exact frame_events_topological. Qed.
+Print Assumptions C15_frame_events_topological.
+
+(* regression witness for 5bf08c3: the function BEFORE the fix leaves the arrived event without wire
+   fields and the reader answers "Creator 0 not found"; the fixed function on the same input gives
+   an event that reads back with the same hash *)
+Theorem C15_frame_event_rewire_regression :
+  exists rs ds n h fe e e_old e_new l,
+    store_ok_b rs = true /\ event_valid e = true /\
+    read_wire rs (to_wire e) = inr l /\ same_event_hash l e = true /\
+    insert_frame_event_prefix ds n h fe (arrived e) = Some (store_add ds h 11 e_old, n, e_old) /\
+    read_wire rs (to_wire e_old) = inl ECreator /\
+    insert_frame_event ds n h fe (arrived e) = Some (store_add ds h 11 e_new, n + 1, e_new) /\
+    (exists l', read_wire rs (to_wire e_new) = inr l' /\ same_event_hash l' e = true).
+Proof. exact frame_event_rewire_regression. Qed.
+Print Assumptions C15_frame_event_rewire_regression.
+
+(* ================================================================================================
+   Text validation (FINDINGS.md F1; guard in /repo since bc8842f: common.EncodableString).
+     encodable s        valid UTF-8 and no U+FFFD
+     sig_decodes s      keys.DecodeSignature accepts s ("r|s", base-36 integers)
+     itx_text_ok        the text part of InternalTransaction.Verify; event_text_ok: of Event.Verify
+     frame_text_ok      Frame.ValidateText (core.checkFastForward, before frame.Hash()); per event:
+                        event_frame_text_ok *)
+
+(* the digest of a validated frame is defined: the codec's non-termination (C15_frame_hash_total_refuted,
+   which stays true of the library) is not reachable through validated text *)
+Theorem C15_frame_hash_total_validated : forall f, frame_text_ok f = true -> frame_digest f <> None.
+Proof. exact frame_text_ok_digest_total. Qed.
+Print Assumptions C15_frame_hash_total_validated.
+
+(* typed characterisation: validated text = no U+FFFD anywhere in the document, and valid UTF-8
+   (so that every round trip theorem above applies to a validated frame) *)
+Theorem C15_validated_frame_no_fffd : forall f, frame_text_ok f = true -> jhas_fffd (j_frame raw f) = false.
+Proof. exact frame_text_ok_no_fffd. Qed.
+Print Assumptions C15_validated_frame_no_fffd.
+Theorem C15_validated_frame_valid : forall f, frame_text_ok f = true -> frame_valid f = true.
+Proof. exact frame_text_ok_valid. Qed.
+Print Assumptions C15_validated_frame_valid.
+
+(* a validated frame survives the JSON transport and the database form with the same digest *)
+Theorem C15_validated_frame_roundtrip : forall f,
+  frame_text_ok f = true ->
+  frame_digest f <> None /\
+  (exists f', json_rt_frame f = Some f' /\ frame_digest f' = frame_digest f) /\
+  (no_nil_root f = true -> exists f', ug_rt_frame f = Some (Some f') /\ frame_digest f' = frame_digest f).
+Proof. exact validated_frame_roundtrip. Qed.
+Print Assumptions C15_validated_frame_roundtrip.
+
+(* admission side.  A signature string that keys.DecodeSignature accepts is encodable; an internal
+   transaction that passes InternalTransaction.Verify (gate of node.processJoinRequest) and an event
+   that passes Event.Verify with parents that are "" or stored hashes (InsertEvent) pass the
+   frame's check: whatever frame they end up in, they cannot stop its hash *)
+Theorem C15_decodable_signature_encodable : forall s, sig_decodes s = true -> encodable s = true.
+Proof. exact sig_decodes_encodable. Qed.
+Print Assumptions C15_decodable_signature_encodable.
+Theorem C15_verified_itx_text : forall t, itx_text_ok t = true -> itx_frame_text_ok t = true.
+Proof. exact verified_itx_text. Qed.
+Print Assumptions C15_verified_itx_text.
+Theorem C15_admitted_event_text : forall st e,
+  store_text_ok st -> event_text_ok e = true -> parents_known st e ->
+  event_frame_text_ok e = true /\ event_valid e = true /\ jhas_fffd (j_event raw e) = false.
+Proof. exact admitted_event_text. Qed.
+Print Assumptions C15_admitted_event_text.
+
+(* a frame assembled from validated peers (accepted internal transactions / peers.json), validated
+   events and participant keys passes Frame.ValidateText by construction: its hash is defined *)
+Theorem C15_assembled_frame_text : forall f,
+  peers_text_ok (f_peers f) = true ->
+  list_forall (fun kv : Z * option (list (option peer)) => peers_text_ok (snd kv)) (f_psets f) = true ->
+  list_forall (fun kv : gostr * option root => encodable (fst kv) && opt_forall (fun r => fevents_text_ok (r_events r)) (snd kv)) (f_roots f) = true ->
+  fevents_text_ok (f_events f) = true ->
+  frame_text_ok f = true /\ frame_digest f <> None.
+Proof. exact assembled_frame_text. Qed.
+Print Assumptions C15_assembled_frame_text.
 
 (* the checker used on the concrete stores is sound *)
 Theorem C15_store_checker_sound : forall st, store_ok_b st = true -> store_ok st.
@@ -237,6 +352,32 @@ Proof.
   - eapply perm_trans; [apply perm_skip; apply perm_swap | apply perm_swap].
   - repeat constructor; cbn; intuition discriminate.
 Qed.
+
+(* a two-event frame inserted in order on a node that only has the repertoire: both events named,
+   indexes 0 and 1, the second reads back with the same hash; the same event alone: residual *)
+Example C15_frame_insert_example :
+  match insert_frame_events ds0 0 frame_list2 with
+  | Some (_, n, [(b, fb); (a, fa)]) =>
+    n = 2 /\ fb = true /\ fa = true /\ e_topo b = 0 /\ e_topo a = 1 /\
+    (b_cid (e_body a), b_opcid (e_body a), b_spi (e_body a), b_opi (e_body a)) = (11, 22, 0, 0) /\
+    match read_wire st0 (to_wire a) with inr a' => same_event_hash a' ev1w = true | inl _ => False end
+  | _ => False
+  end /\
+  match insert_frame_events ds0 0 frame_list1 with
+  | Some (_, _, [(a, fa)]) =>
+    fa = false /\
+    match read_wire st0 (to_wire a) with
+    | inr a' => b_parents (e_body a') = Some [hA0; []] /\ same_event_hash a' ev1w = false
+    | inl _ => False
+    end
+  | _ => False
+  end.
+Proof. vm_compute. repeat split. Qed.
+
+Example C15_text_validation_example :
+  frame_text_ok frame1 = true /\ frame_digest frame1 <> None /\
+  frame_text_ok frame_fffd = false /\ itx_text_ok itx_bad = false.
+Proof. vm_compute. repeat split; discriminate. Qed.
 
 (* frame and block through JSON on a non-trivial instance *)
 Example C15_frame_example :
